@@ -12,14 +12,15 @@
 
    The nine commands implemented by a script.ds (array_is_empty, array_contains, array_concat,
    array_join, map_contains_key, map_contains_value, map_is_empty, set_from_array, set_is_empty)
-   are specified here like the native ones.  Eight of them have a hand translation of their script
-   (CollectionsScripts.v) proved against this specification; array_join is tied to the code by the
-   correspondence run only.  [concat_asis] is
+   are specified here like the native ones.  All nine have a hand translation of their script
+   (CollectionsScripts.v, CollectionsJoin.v) proved against this specification (array_join on the
+   arguments that survive eval re-serialisation: finding F7).  [concat_asis] is
    `array_concat` as the code behaves today (finding F6: the validation loop resumes where an
    earlier failed call stopped; theorem concat_asis_fresh: no difference otherwise). *)
 From stdpp Require Import gmap list.
 From Coq Require Import NArith ZArith.
-Require Import DS.Collections DS.CollectionsScripts.
+Require Import DS.Collections DS.CollectionsScripts DS.CollectionsJoin.
+Require DS.Expansion.
 
 Inductive look (A : Type) := Found (a : A) | WrongKind | Missing.
 Arguments Found {A} a. Arguments WrongKind {A}. Arguments Missing {A}.
@@ -226,8 +227,8 @@ Definition concat_asis (args : list str) (s : mstate) : cres * mstate :=
   end.
 
 (* ---- what the correspondence run executes ---------------------------------------------------- *)
-(* natives: the model M;  eight script commands: their translation (CollectionsScripts.v;
-   array_concat as the code behaves);  array_join: S *)
+(* natives: the model M;  the nine script commands: their translations (CollectionsScripts.v,
+   CollectionsJoin.v; array_concat and array_join as the code behaves) *)
 Definition step_h (c : cmd) (args : list str) (s : mstate) : outcome (cres * mstate) :=
   match step_m rnd ord c args s with
   | Some o => o
@@ -236,6 +237,13 @@ Definition step_h (c : cmd) (args : list str) (s : mstate) : outcome (cres * mst
     | Some o => o
     | None => match c with
               | CArrayConcat => Done (concat_asis args s)
+              | CArrayJoin =>
+                (* the translation of CollectionsJoin.v, with no variable defined (so that a separator
+                   such as ${x} re-binds to nothing); outside the translation: the specification *)
+                match script_array_join DS.Expansion.env_empty args s with
+                | Some o => o
+                | None => Done (step_s c args s)
+                end
               | _ => Done (step_s c args s)
               end
     end
